@@ -134,6 +134,14 @@ ReadSpec(T) ==
 
 NF(F) == ReadSpec(WriteSpec(F))
 
+\* The reader with the repair proposed in proposed-fixes/C01-2.diff: the flag derived from the
+\* sub-family name is also derived from the sub-family name the writer WOULD generate.
+BoldName(sub) == Contains(sub, <<"Bold">>) /\ ~Contains(sub, <<"Semi", "Bold">>) /\ ~Contains(sub, <<"Extra", "Bold">>)
+ReadSpecRepaired(T) ==
+  LET a == ReadSpec(T)
+      b == a.bold \/ BoldName(Subfamily(a))
+  IN [a EXCEPT !.bold = b, !.reg = a.reg /\ ~b]
+
 Prec(F) == [F EXCEPT !.angle = PrecAngle(@), !.ver = PrecVer(@), !.ul = PrecUl(@),
                      !.created = PrecTime(@), !.modified = PrecTime(@)]
 
